@@ -129,13 +129,13 @@ def run_stream(ts, op):
             s["data"] = se["source"]["data"]
         except Exception:  # noqa: BLE001
             pass
-        g = ge.enum(se)
+        g = iter(ge.enum(se))
         try:
             while True:
                 if budget is not None and taken >= budget:
                     s["status"] = "abandoned"
                     stop = True
-                    if cons.get("close"):
+                    if cons.get("close") and hasattr(g, "close"):
                         g.close()
                     break
                 try:
